@@ -7,10 +7,10 @@ def n_cases(tier, quick, thorough):
     # "search": the enlarged run made when a proof obligation or the correspondence broke -- bounded so that the check stays in minutes
     if tier == "search":
         return min(thorough, 3 * quick)
-    # thorough: at most VERIF_THOROUGH_FACTOR (default 6) times the quick size, so that every thorough tier ends within minutes on 16 cores
+    # thorough: at most VERIF_THOROUGH_FACTOR (default 4) times the quick size, so that every thorough tier ends within minutes on 16 cores
     # (the uncapped sizes took up to 80 minutes for one property); set VERIF_THOROUGH_FACTOR=0 for the uncapped sizes
     if tier == "thorough":
-        f = int(os.environ.get("VERIF_THOROUGH_FACTOR", "6"))
+        f = int(os.environ.get("VERIF_THOROUGH_FACTOR", "4"))
         return thorough if f <= 0 else min(thorough, f * quick)
     return quick
 
